@@ -1,15 +1,16 @@
 #!/usr/bin/env python3
 """Store behaviour-preserving patches (written by independent sub-agents: refactorings that keep
 every documented behaviour, with a keep_test.go that passes before and after) as NEGATIVE
-examples under /verif/seeded-negative/<id>-pK/.  usage: import_negative.py <round-dir> <base-for-C01..C10> <base-for-C11..C20>"""
+examples under /verif/seeded-negative/<id>-pK/.  usage: import_negative.py <round-dir> <base-for-C01..C10> <base-for-C11..C20> [round-tag, default r4]"""
 import json, os, shutil, sys, glob
 rd, base_lo, base_hi = sys.argv[1], sys.argv[2], sys.argv[3]
+tag = sys.argv[4] if len(sys.argv) > 4 else "r4"
 for d in sorted(glob.glob(os.path.join(rd, "C*", "p*"))):
     prop = os.path.basename(os.path.dirname(d)); k = os.path.basename(d)
     if not os.path.exists(os.path.join(d, "patch.diff")):
         continue
     n = int(prop[1:])
-    out = f"/verif/seeded-negative/{prop}-r4{k}"
+    out = f"/verif/seeded-negative/{prop}-{tag}{k}"
     os.makedirs(out, exist_ok=True)
     shutil.copy(os.path.join(d, "patch.diff"), out)
     for f in glob.glob(os.path.join(d, "*")):
@@ -18,7 +19,7 @@ for d in sorted(glob.glob(os.path.join(rd, "C*", "p*"))):
             shutil.copy(f, os.path.join(out, b + ".txt"))
         elif b.lower().startswith("readme"):
             shutil.copy(f, os.path.join(out, "README.md"))
-    meta = {"id": f"{prop}-r4{k}", "property": prop, "kind": "behaviour-preserving",
+    meta = {"id": f"{prop}-{tag}{k}", "property": prop, "kind": "behaviour-preserving",
             "origin": "written by an independent sub-agent given only the property text and a scratch worktree (nothing from /verif); the agent's TestKeep* tests pass with and without the patch and the full suite passes with it",
             "applies_to": base_lo if n <= 10 else base_hi,
             "expect": "no rule of any property reports a violation that the unpatched base tree does not also report"}
